@@ -41,11 +41,12 @@ Section C01.
   (* 2. for every fork configuration, parent, proposer option set, clock, candidate transaction sequence and vote: the
         block Schedule+Adopt*+Pack produces passes Process on every validator whose clock has reached it, and Process
         returns exactly the packer's final state and receipts.  Premises (named): numbers below the uint64 wrap
-        (gas limits < 2^62, tx gas < 2^63), unique candidate addresses, exec_sane (a receipt uses at most the tx gas and
-        execution needs a recoverable origin: C07), crypto round trips, total score grows (see 3 for PoA v2), staker
-        sanity check (PoS; C16) *)
+        (gas limits < 2^62, block number < 2^32), unique candidate addresses, exec_sane (a receipt uses at most the tx
+        gas - C07 -, execution needs a recoverable origin and refuses a tx whose gas exceeds the block gas limit -
+        runtime.PrepareTransaction; this is what keeps the uint64 sum gasUsed+tx.Gas() of Flow.Adopt from wrapping),
+        crypto round trips, total score grows (see 3 for PoA v2), staker sanity check (PoS; C16) *)
   Theorem packed_block_accepted cfg pv parent po now st0 txs vote sr b stp rcs vnow :
-    premises cfg pv parent po txs -> crypto_roundtrip cfg parent po sr ->
+    premises cfg pv parent po -> crypto_roundtrip cfg parent po sr ->
     pack_block cfg pv parent po now st0 txs vote sr = Some (b, stp, rcs) ->
     h_total_score parent < h_total_score (b_header b) ->
     (pv_pos pv = true -> forall st, sanity st = true) ->
@@ -91,8 +92,8 @@ Definition ex_po := mkPO 11 None 20000000 0.
 Definition ex_txs := [ mkTx 9001 true false true false 39 4 32 0 0 false 21000 true None;
                        mkTx 9002 true false true false 38 4 32 0 0 false 21000 true None;   (* wrong chain tag: refused *)
                        mkTx 9003 true false true false 39 4 32 0 0 false 30000 true (Some 9001) ].
-Definition ex_exec (_ : bctx) (st : N) (t : txn) : option (N * receipt) :=
-  if t_origin_ok t && (21000 <=? t_gas t) then Some (st + t_id t, mkRc 21000 false 5) else None.
+Definition ex_exec (c : bctx) (st : N) (t : txn) : option (N * receipt) :=
+  if t_origin_ok t && (21000 <=? t_gas t) && (t_gas t <=? x_gas_limit c) then Some (st + t_id t, mkRc 21000 false 5) else None.
 Definition ex_sr := mkSR 146 (Some 11) (Some (32, 4242)).
 Definition ex_pack := pack_block N ex_exec (fun _ _ st _ => st) (fun _ st => Some st) (fun st => st)
           (fun rs => N.of_nat (length rs)) (fun ts => N.of_nat (length ts)) (fun _ _ => false) (fun _ => None)
@@ -105,7 +106,7 @@ Example ex_packed :
             h_total_score ex_parent < h_total_score (b_header b).
 Proof. eexists. split; [vm_compute; reflexivity|]. vm_compute. repeat split; reflexivity. Qed.
 
-Example ex_premises : premises N ex_exec ex_cfg ex_pv ex_parent ex_po ex_txs /\ crypto_roundtrip ex_cfg ex_parent ex_po ex_sr.
+Example ex_premises : premises N ex_exec ex_cfg ex_pv ex_parent ex_po /\ crypto_roundtrip ex_cfg ex_parent ex_po ex_sr.
 Proof.
   split.
   - constructor.
@@ -113,10 +114,10 @@ Proof.
     + reflexivity.
     + split; [discriminate | reflexivity].
     + reflexivity.
-    + constructor; [reflexivity|]. constructor; [reflexivity|]. constructor; [reflexivity | constructor].
     + constructor; [cbn; intuition discriminate|]. constructor; [cbn; intuition | constructor].
     + intros ctx st t st' r E. unfold ex_exec in E. destruct (t_origin_ok t) eqn:Eo; cbn [andb] in E; [|discriminate].
-      destruct (N.leb_spec 21000 (t_gas t)); [|discriminate]. inversion E; subst. cbn [r_gas]. split; [assumption | reflexivity].
+      destruct (N.leb_spec 21000 (t_gas t)); cbn [andb] in E; [|discriminate].
+      destruct (N.leb_spec (t_gas t) (x_gas_limit ctx)); [|discriminate]. inversion E; subst. cbn [r_gas]. auto.
   - split; [reflexivity|]. split; [reflexivity|]. intros _. discriminate.
 Qed.
 
